@@ -414,13 +414,28 @@ def gen_kernels(repo):
     # --- decoder: Rice un-folding
     rb = fn_body(dec, 'read_block')
     rbn = ' '.join(rb.split())
+    rule = 'rchunks'
     if 'residuals.rchunks_mut(block_size / partition_count).rev()' in rbn:
         zero = '.panic "read_block: rchunks_mut chunk size must be non-zero"'
     elif ('let partition_len = match block_size / partition_count { 0 => return Err(Error::InvalidPartitionOrder), len => len, };' in rbn
           and 'residuals.rchunks_mut(partition_len).rev()' in rbn):
         zero = '.err "InvalidPartitionOrder"'
+    elif ('let partition_len = match block_size / partition_count { len if block_size % partition_count == 0 && len > predictor_order => len, '
+          '_ => return Err(Error::InvalidPartitionOrder), };' in rbn and 'residuals.rchunks_mut(partition_len).rev()' in rbn):
+        zero = '.err "InvalidPartitionOrder"'
+        rule = 'rfc'
     else:
         raise ExtractError('read_block: partition slicing `residuals.rchunks_mut(block_size / partition_count)` changed shape')
+    out.append(f'/-- does `read_block` (decode.rs) require `2^po ∣ block size` and `block size / 2^po > predictor order`? -/\ndef decLayoutRfc : Bool := {"true" if rule == "rfc" else "false"}\n')
+    stn = ' '.join(strip_comments(open(os.path.join(repo, 'src/stream.rs')).read()).split())
+    if ('(block_size / partition_count) .checked_sub(if p == 0 { predictor_order } else { 0 }) .ok_or(Error::InvalidPartitionOrder)?' in stn):
+        srule = 'false'
+    elif ('let partition_len = match block_size / partition_count { len if block_size % partition_count == 0 && len > predictor_order => len, '
+          '_ => return Err(Error::InvalidPartitionOrder), };' in stn and 'partition_len - if p == 0 { predictor_order } else { 0 }' in stn):
+        srule = 'true'
+    else:
+        raise ExtractError('stream.rs read_partitions: partition length computation changed shape')
+    out.append(f'/-- does `read_partitions` (stream.rs) enforce the same rule? -/\ndef structLayoutRfc : Bool := {srule}\n')
     if 'if partitions.len() != partition_count { return Err(Error::InvalidPartitionOrder); }' not in rbn:
         raise ExtractError('read_block: the test `partitions.len() != partition_count` is gone')
     out.append(f'/-- what `read_block` does when `block_size / partition_count` is 0 -/\ndef decZeroPartitionLen : Fail := {zero}\n')
